@@ -856,9 +856,10 @@ func TamperFindings(base []byte, c *VCase, what string) []Finding {
 		if r.Err != [2]int64{} {
 			continue
 		}
-		for _, id := range r.Verified {
+		for k, id := range r.Verified {
+			// the reported object is identified by ID and place (IDs can be duplicated by a rewrite)
 			for _, d := range mi.Descs {
-				if d.Used && d.ID == id {
+				if d.Used && d.ID == id && (k >= len(r.Ranges) || d.Off == r.Ranges[k][0] && d.Size == r.Ranges[k][1]) {
 					if !baseViews[fmt.Sprintf("%d|%v", d.GroupID(), viewOf(c.Image, mi, d))] {
 						add("object %d reported as verified does not have the protected view of any signed object", id)
 					}
